@@ -604,6 +604,7 @@ def c06(tr, sem=None):
     v = []
     dep = depths(g)
     started, completed = set(), set()
+    invoked = set()          # nodes whose body (or get_default) has been called, or that have been reported finished / failed
     st = tr.setdefault('stats', {})
     for ev in _events(tr):
         if ev.get('rid', 0) != 0 and ev['k'] == 'step':
@@ -617,11 +618,21 @@ def c06(tr, sem=None):
                     v.append(f'loop idle, every node of depth < {dn} has completed, node {n} (depth {dn}) has not been '
                              f'started; in flight: {sorted(started - completed)}')
                     break
+            # "in flight" means the body is running: a node that has announced its start but whose body has not been
+            # invoked while the loop is idle is waiting for something — in a plain pipeline that can only be a sibling
+            for n in sorted(started - invoked):
+                if not v:
+                    v.append(f'loop idle: node {n} has announced on_node_start but its body has not been invoked (in flight: '
+                             f'{sorted((started & invoked) - completed)}): it is waiting for a sibling')
         for o in ev.get('obs', []):
             if o[0] == 'emit' and o[1] == 'nstart':
                 started.add(o[3])
-            elif o[0] == 'emit' and o[1] == 'ncomplete' and o[4] is None:
-                completed.add(o[3])
+            elif o[0] == 'emit' and o[1] == 'ncomplete':
+                invoked.add(o[3])
+                if o[4] is None:
+                    completed.add(o[3])
+            elif o[0] in ('body', 'default'):
+                invoked.add(o[2])
     return v
 
 
